@@ -2,7 +2,10 @@
 (* code -> spec for C06.  One trace = one document (generated or fixture) of one type:
    hdr  [type, d0]           d0 = digest id of the first extraction (ids are small ints assigned by the
                              recorder: equal ids <=> equal sha256 of the canonical JSON)
-   ev   Obs(k, d)            digest id observed right after observer call k
+   ev   Obs(k, d, v)         digest id observed right after observer call k; v = id of what the call returned
+                             (per kind: 0 = what the first call of that kind returned)
+        Other(d)             digest id of the held result after another input (or the same bytes under another
+                             path) has been extracted in the same process
         Reextract(m, s, d)   digest id of a re-extraction (same process / fresh process with seed s)
         Input(same)          caller's buffer content compared before / after extraction          *)
 EXTENDS Naturals, Sequences, FiniteSets, TLC, Json, IOUtils, TLCExt
@@ -18,11 +21,13 @@ IsEvent(a) == l <= Len(Traces[tid].ev) /\ Ev.a = a /\ l' = l + 1 /\ UNCHANGED ti
 TraceObs == IsEvent("Obs") /\ Ev.k \in {"FullText", "Units", "UnitDeep", "Images", "ImageBytes", "Tables",
                                          "Metadata", "ToJson"}
                            /\ digest' = Ev.d /\ digest' = digest
+                           /\ Ev.v = 0                           \* Result!Prop_ValuesStable
+TraceOther == IsEvent("Other") /\ digest' = Ev.d /\ digest' = digest
 TraceReextract == IsEvent("Reextract") /\ digest' = Ev.d /\ digest' = digest
 TraceInput == IsEvent("Input") /\ Ev.same = TRUE /\ UNCHANGED digest
 
 TraceInit == tid \in 1..Len(Traces) /\ l = 1 /\ digest = Traces[tid].hdr.d0
-TraceNext == TraceObs \/ TraceReextract \/ TraceInput
+TraceNext == TraceObs \/ TraceReextract \/ TraceInput \/ TraceOther
 TraceSpec == TraceInit /\ [][TraceNext]_vars
 TraceAccept ==
     /\ (l = Len(Traces[tid].ev) + 1) => PrintT(<<"ACCEPT", tid>>)
